@@ -259,6 +259,34 @@ func c16Explore(bn, bb *px.Built, rn, rb *px.Runner, fam string, idx int64, prm 
 				return
 			}
 		}
+		// .. nor may the *type* of a result: an action is free to return a Token it
+		// made up, a *Token, or an Error it was given.
+		kindName := []string{"", "", "a Token value", "an Error value", "a *Token"}
+		for _, kind := range []int{2, 3, 4} {
+			for mode, sel := range []func(p int32) bool{func(int32) bool { return true }, func(p int32) bool { return p%2 == 1 }} {
+				kind, sel := kind, sel
+				rb.ResKind = func(p int32) int {
+					if sel(p) {
+						return kind
+					}
+					return 0
+				}
+				o := rb.Run(w)
+				rb.ResKind = nil
+				st.Evaluations++
+				if o.Panic != "" {
+					report("parser-panic", w, fmt.Sprintf("with actions returning %s (mode %d) the parser panicked: %s", kindName[kind], mode, o.Panic))
+					return
+				}
+				if o.Hang != "" || o.Incon {
+					continue
+				}
+				if a, b := sig(ref.Events), sig(o.Events); o.OK != ref.OK || !reflect.DeepEqual(a, b) {
+					report("result-type-dependent-call", w, fmt.Sprintf("with actions returning %s (mode %d) the reductions / _onBounds calls are %v (parse()=%v); with other results they are %v (parse()=%v)", kindName[kind], mode, b, o.OK, a, ref.OK))
+					return
+				}
+			}
+		}
 	}
 	if only != nil {
 		check(only)
